@@ -88,6 +88,29 @@ PROPS = {
         "level_note": "Trusted: Coq kernel; the four stdlib real-number axioms printed by Print Assumptions; Flocq; extraction; harness. "
                       "Modelled, not verified: consistentHashSelector, doublejump, go-jump.",
     },
+    "C18": {
+        "rule": "exhaustive success/failure call traces without sleeps up to length 5 (thorough 7) for thresholds 1..5 (pure counting), "
+                "random timed traces of length 2-7 over {failing call, succeeding call, timed-out call, Ready, Fail, Success} with real "
+                "sleeps of 0 / 0.6 window / 1.5 window between events (window 200 ms), and xclient dial traces against a refusing "
+                "ConnFactories network with GenBreaker; traces run concurrently (one breaker each); distinct = distinct model-input line "
+                "(timestamps included); non-trivial = trace at least as long as the threshold or containing a sleep",
+        "theorems": ["C18_machine_meets_trace_spec", "C18_refused_call_changes_nothing", "C18_threshold_failures_open",
+                     "C18_success_closes", "C18_elapsed_window_closes", "C18_xclient_open_breaker_skips_dial",
+                     "C18_xclient_refused_dial_counts"],
+        "assumptions": ["time.Now is not injectable: the harness reads the wall clock next to each operation and passes those "
+                        "timestamps to the model; sleeps keep every comparison at least 40 ms away from the window boundary",
+                        "the breaker's atomics are modelled as one step per method (sequential callers); interleavings of concurrent "
+                        "callers between ready() and fail() are not modelled",
+                        "reading fixed in DESIGN.md: an observation after an elapsed window clears the failure count"],
+        "trusted": ["client.ConnFactories (existing extension point) used as the refusing network"],
+        "level_text": "Theorem: for every timed trace, threshold and window the breaker state machine gives exactly the answers of a trace "
+                      "specification defined on the history alone (open = at least threshold failures since the last success or "
+                      "elapsed-window observation, and window since the most recent failure not elapsed); corollaries: refused calls change "
+                      "nothing, threshold failures open, a success or an elapsed window closes, and the discovery client skips the dial "
+                      "while open. The model is run on the real breaker and a real XClient with wall-clock timestamps.",
+        "level_note": "Trusted: Coq kernel, extraction, harness; wall-clock margins. Modelled, not verified: client/circuit_breaker.go, "
+                      "getCachedClient/generateClient breaker wiring.",
+    },
     "C12": {
         "rule": "exhaustive weight vectors (quick: n<=3,w<=4 and n=4,w<=2; thorough: n<=4,w<=6) from a random window "
                 "offset, round-robin sets n=0..8 from every cursor offset, and random update/selection histories over a "
